@@ -36,9 +36,10 @@ const rule = "case = (primary history of 3-170 steps over put/del/tx/batch/flush
 	"operations are applied in order without skips or out-of-order repeats, GetLastAppliedSequence never decreases and never exceeds what was applied; " +
 	"serialize/compress/decompress/deserialize is the identity; a minority of cases (class loop) runs the REAL replica state machine (Start, ticks, error state, " +
 	"backoff, handleErrorState, reconnect) catching up with a history of 3-10 steps served in messages of generated sizes while its applier refuses generated " +
-	"entries 1-3 times (transient apply failures at the first, a middle or the last entry of a message), same oracle; non-trivial = the schedule delivered at " +
+	"entries 1-3 times (transient apply failures at the first, a middle or the last entry of a message) or (one or two cases per process) the first Apply of a " +
+	"generated entry stalls for 5.5-8 s before it is carried out, the case then ending only after every stalled call has returned plus a grace period; same oracle; non-trivial = the schedule delivered at " +
 	"least one stale (duplicate/overlapping) message AND at least one message ahead of the replica's position (drop/reorder) or with an inner hole, or (loop class) " +
-	"an apply failure hit after at least one entry of the same message had been applied; distinct by FNV-64 of the case JSON"
+	"an apply failure hit after at least one entry of the same message had been applied, or a stalled apply followed by later entries; distinct by FNV-64 of the case JSON"
 
 func TestMain(m *testing.M) {
 	ev.Silence()
@@ -583,7 +584,7 @@ func TestProp(t *testing.T) {
 		var trace []string
 		if c.Variant == "loop" {
 			c.Loop = genLoop(t, &c.Prog)
-			out, trace = runLoopCase(&c)
+			out, trace = runLoopCaseBounded(&c)
 		} else {
 			c.Exotic = genExotic(t)
 			out = runCase(&c, func(st *genState, h *history) *Msg { return nextMsg(t, st, h) })
@@ -617,7 +618,11 @@ func TestReplay(t *testing.T) {
 	var out outcome
 	if d.Case.Variant == "loop" {
 		// the real state machine runs on its own clock: repeat a passing execution
-		for try := 0; try < 3; try++ {
+		tries := 3
+		if d.Case.Loop != nil && d.Case.Loop.Slow != nil {
+			tries = 1 // 6-9 s each, and nothing in it depends on the schedule
+		}
+		for try := 0; try < tries; try++ {
 			out, _ = runLoopCase(&d.Case)
 			if out.viol != nil || out.abandoned != "" {
 				break
